@@ -44,6 +44,9 @@ def build_overlay(dst, generated=None):
             f.write(text)
     with open(os.path.join(dst, "src", "dns", "mod.rs"), "a") as f:
         f.write("\n#[cfg(kani)]\n#[allow(dead_code, unused_imports, unused_variables, clippy::all)]\nmod verif_kani;\n")
+    # overlay-only re-exports of two public types that live in private modules (nothing in /repo changes)
+    with open(os.path.join(dst, "src", "dns", "rdata", "mod.rs"), "a") as f:
+        f.write("\n#[cfg(kani)]\npub use ipseckey::Gateway;\n#[cfg(kani)]\npub use nsec::TypeBitMap;\n")
     return dst
 
 
@@ -119,6 +122,9 @@ def parse_kani_output(text, wanted):
         i += 1
     if cur:
         cur.log = "\n".join(buf)
+    for r in res.values():
+        if r.status == "FAILED" and not r.failed_checks and "timed out" in r.log.lower():
+            r.status = "TIMEOUT"
     # concrete playback blocks
     for m in re.finditer(r"Concrete playback unit test for `([^`]+)`:\n```\n(.*?)```", text, re.S):
         h = short(m.group(1))
@@ -128,10 +134,13 @@ def parse_kani_output(text, wanted):
 
 
 def run_group(overlay, harnesses, timeout_s, mem_gb=12, extra_args=None, playback=False, exact=True):
+    per_harness = timeout_s
+    timeout_s = 120 + per_harness * len(harnesses)
     """One cargo-kani process over a list of harness names; returns {harness: HarnessResult}."""
     tdir = os.path.join(overlay, "target-" + hashlib.md5(("|".join(harnesses)).encode()).hexdigest()[:8]
                         + ("p" if playback else ""))
-    cmd = ["cargo", "kani", "--target-dir", tdir, "-Z", "stubbing", "--output-format", "regular"]
+    cmd = ["cargo", "kani", "--target-dir", tdir, "-Z", "stubbing", "--output-format", "regular",
+           "-Z", "unstable-options", "--harness-timeout", "%ds" % per_harness]
     if exact:
         cmd.append("--exact")
     for h in harnesses:
